@@ -36,6 +36,7 @@ type C02Case struct {
 	Yields bool              `json:"yields"`
 	Calls  [][]C02Call       `json:"calls"` // per goroutine
 	Reps   int               `json:"reps"`
+	Churn  bool              `json:"churn,omitempty"` // the harness removes/recreates churn/* while the workload runs
 }
 
 func c02World(t *rapid.T) (map[string]string, map[string]string, []string) {
@@ -51,6 +52,8 @@ func c02World(t *rapid.T) (map[string]string, map[string]string, []string) {
 		fs[d+"/plain.twig"] = "plain" + D + "{% for i in [1,2,3] %}{{ i * v }}{% if not loop.last %},{% endif %}{% endfor %}{% from './macros' import tag %}{{ tag(v) }}"
 		names = append(names, d+"/page", d+"/plain", d+"/part")
 	}
+	fs["churn/x.twig"] = "churn-x{{ v }}"
+	fs["churn/y.twig"] = "churn-y{{ v }}"
 	mem := map[string]string{
 		"mlayout": "ML[{% block c %}{% endblock %}]",
 		"mchild":  "{% extends 'mlayout' %}{% block c %}child{{ v }}{{ parent() }}{% endblock %}",
@@ -151,6 +154,10 @@ func runC02(c C02Case) (int, error) {
 			if call.Op == "registerRender" && c.Mode == "nocache" {
 				continue // registrations are dropped while the cache is off (C15 domain decision)
 			}
+			if call.Op == "loadChurn" {
+				want[key{g, i}] = Res{Out: "\x00unchecked"}
+				continue
+			}
 			want[key{g, i}] = c02Do(c02Engine(c, root), call)
 		}
 	}
@@ -185,6 +192,19 @@ func runC02(c C02Case) (int, error) {
 						maxActive = active
 					}
 					mu.Unlock()
+					if call.Op == "loadChurn" {
+						// these files are removed and recreated by the harness while the workload runs:
+						// the result legitimately varies, only panics, races and fatal errors count
+						got := c02Do(e, C02Call{Op: "load", Name: call.Name, V: call.V})
+						mu.Lock()
+						active--
+						mu.Unlock()
+						if got.Panic != "" {
+							errs <- fmt.Errorf("goroutine %d call %d (load %s while the file is being replaced) panicked: %s", g, i, call.Name, got.Panic)
+							return
+						}
+						continue
+					}
 					got := c02Do(e, call)
 					mu.Lock()
 					active--
@@ -203,8 +223,30 @@ func runC02(c C02Case) (int, error) {
 				}
 			}(g, calls)
 		}
+		stopChurn := make(chan struct{})
+		churnDone := make(chan struct{})
+		go func() {
+			defer close(churnDone)
+			if !c.Churn {
+				return
+			}
+			<-start
+			for k := 0; ; k++ {
+				select {
+				case <-stopChurn:
+					return
+				default:
+				}
+				p := filepath.Join(root, "churn", []string{"x.twig", "y.twig"}[k%2])
+				os.Remove(p)
+				runtime.Gosched()
+				os.WriteFile(p, []byte(fmt.Sprintf("churn%d{{ v }}", k)), 0o644)
+			}
+		}()
 		close(start)
 		wg.Wait()
+		close(stopChurn)
+		<-churnDone
 		close(errs)
 		if maxActive >= 2 {
 			overlaps++
@@ -219,7 +261,7 @@ func runC02(c C02Case) (int, error) {
 func genC02(t *rapid.T) C02Case {
 	fs, mem, names := c02World(t)
 	c := C02Case{FS: fs, Mem: mem, Mode: rapid.SampledFrom([]string{"cache", "cache", "nocache", "autoreload"}).Draw(t, "mode"),
-		Procs: rapid.SampledFrom([]int{0, 2, 4, 16}).Draw(t, "procs"), Yields: rapid.Bool().Draw(t, "yields"), Reps: scale(3, 10)}
+		Procs: rapid.SampledFrom([]int{0, 2, 4, 16}).Draw(t, "procs"), Yields: rapid.Bool().Draw(t, "yields"), Reps: scale(3, 10), Churn: rapid.Bool().Draw(t, "churn")}
 	g := rapid.SampledFrom([]int{2, 4, 8, 16}).Draw(t, "goroutines")
 	for gi := 0; gi < g; gi++ {
 		n := rapid.IntRange(3, scale(12, 40)).Draw(t, "ncalls")
@@ -233,6 +275,9 @@ func genC02(t *rapid.T) C02Case {
 				call.Op, call.Name = "renderTo", rapid.SampledFrom(names).Draw(t, "name")
 			case 6:
 				call.Op, call.Name = "load", rapid.SampledFrom(names).Draw(t, "name")
+				if c.Churn && rapid.Bool().Draw(t, "churnload") {
+					call.Op, call.Name = "loadChurn", rapid.SampledFrom([]string{"churn/x", "churn/y"}).Draw(t, "churnname")
+				}
 			case 7, 8:
 				call.Op = "parse"
 				call.Src = fmt.Sprintf("P%d.%d[{%% for q in [1,2] %%}{{ q + v }}{%% endfor %%}{%% if v > 4 %%}hi{%% else %%}lo{%% endif %%}]%s", gi, i, strings.Repeat("x", rapid.SampledFrom([]int{0, 50, 5000}).Draw(t, "plen")))
